@@ -501,6 +501,14 @@ func (e *Eng) doCallInner(fr *Frame, st *State, instr ssa.Instruction, cc *ssa.C
 		setRes(e.freshResults(fr, st, sig, "dyncall"))
 		return
 	}
+	if fr.pure && !isSpecGenFn(e.w, fn) && fn.Blocks == nil {
+		// library function in a contract clause: only functions declared deterministic are allowed
+		if fc := e.w.Contracts[fn.String()]; fc != nil && fc.Deterministic && sig.Results().Len() == 1 {
+			setRes(e.ufResult(fn.String(), 0, sig.Results().At(0).Type(), args, sig))
+			return
+		}
+		panic(unsupportedErr{"contract clause calls a library function that is not declared deterministic: " + fn.String()})
+	}
 	if isSpecGenFn(e.w, fn) || fr.pure {
 		v, t := e.specCall(fr, st, fn, args, argTaint, bind, bindTaint)
 		setRes(v)
@@ -898,6 +906,10 @@ func (e *Eng) ghostRead(fr *Frame, st *State, fn *ssa.Function, args []Val, argT
 	rt := fn.Signature.Results().At(0).Type()
 	name := "G|" + strings.TrimPrefix(fn.Name(), "G_")
 	hs := st
+	if strings.HasSuffix(name, "__old") {
+		name = strings.TrimSuffix(name, "__old")
+		hs = e.heapFor(fr, st, true)
+	}
 	// old(G_x(a)): the argument is tainted
 	for _, t := range argTaint {
 		if t {
@@ -966,6 +978,25 @@ func (e *Eng) applyContract(fr *Frame, st *State, instr ssa.Instruction, fc *Fun
 		return nil
 	}
 	old := st.clone()
+	preN, preReach := len(e.q.asserts), st.reach
+	defer func() {
+		if e.collect || fr.pure || (len(fc.Ensures) == 0 && len(fc.Assumes) == 0) || mode == "go" {
+			return
+		}
+		never := false
+		for _, c := range fc.Ensures {
+			if strings.TrimSpace(c.Expr) == "false" {
+				never = true // the callee never returns
+			}
+		}
+		if never {
+			return
+		}
+		q := e.q
+		o := e.addObl("cover", "after["+disp+"]", e.allProps(), e.q.Snapshot(len(e.q.asserts), st.reach, nil), instr, "the contract assumed for "+disp+" is consistent with what is known at this call", false)
+		o.Cover = true
+		o.PreText = func() string { return q.Snapshot(preN, preReach, nil) }
+	}()
 	// frame
 	if !fc.HasMod {
 		e.callFrameCheck(fr, st, instr, nil, disp, nil)
@@ -975,11 +1006,23 @@ func (e *Eng) applyContract(fr *Frame, st *State, instr ssa.Instruction, fc *Fun
 			e.applyMod(fr, st, old, instr, fc, m, args, disp)
 		}
 	}
+	// the callee may have allocated: the allocation clock moves on (results may be fresh objects)
+	if !fr.pure && !fc.Deterministic {
+		now := e.allocTerm(st)
+		na := e.fresh("Alloc_call", sI64)
+		e.assume(st, tAnd(app("bvule", now, na), app("bvult", na, bvLit(64, 1<<62))))
+		st.heap["Alloc"] = na
+	}
 	// results
 	var results []Val
 	res := sig.Results()
 	for i := 0; i < res.Len(); i++ {
-		v := e.freshVal(res.At(i).Type(), fmt.Sprintf("r_%s_%d", sanitizeHint(disp), i))
+		var v Val
+		if fc.Deterministic {
+			v = e.ufResult(key, i, res.At(i).Type(), args, sig)
+		} else {
+			v = e.freshVal(res.At(i).Type(), fmt.Sprintf("r_%s_%d", sanitizeHint(disp), i))
+		}
 		e.assume(st, e.wf(res.At(i).Type(), v))
 		e.assumeValAllocated(fr, st, res.At(i).Type(), v)
 		results = append(results, v)
@@ -1023,6 +1066,8 @@ func (e *Eng) evalModSpecVars(fc *FuncContract, m *ModSpec, args []Val, vars map
 		return []modTarget{{kind: "ghost0", fam: "G|" + strings.TrimPrefix(m.Name, "G_")}}
 	case "global":
 		return []modTarget{{kind: "global", fam: m.Name}}
+	case "heap":
+		return []modTarget{{kind: "heap", fam: m.Name}}
 	}
 	fn := e.w.specFn(m.SpecFn)
 	if fn == nil {
@@ -1132,8 +1177,10 @@ func (e *Eng) applyMod(fr *Frame, st, old *State, instr ssa.Instruction, fc *Fun
 		case "object":
 			// any field of that object (whatever its dynamic type): every field heap at that reference
 			for _, n := range e.sortedHeapNames() {
-				if strings.HasPrefix(n, "F|") && strings.HasPrefix(e.heapNames[n], "(Array "+sRef+" ") {
-					st.heap[n] = app("store", st.heap[n], t.ref, e.fresh("modobj", elemSortOf(e.heapNames[n])))
+				if strings.HasPrefix(n, "F|") && strings.HasPrefix(e.heapNames[n], "(Array "+sRef+" ") && !e.w.immutableHeap(n) {
+					tn := n[2:]
+					tn = tn[:strings.LastIndex(tn, "|")]
+					st.heap[n] = app("ite", tEq(e.rtypeOf(t.ref), e.structTagByName(tn)), app("store", st.heap[n], t.ref, e.fresh("modobj", elemSortOf(e.heapNames[n]))), st.heap[n])
 					e.modified[n] = true
 				}
 			}
@@ -1179,6 +1226,13 @@ func (e *Eng) applyMod(fr *Frame, st, old *State, instr ssa.Instruction, fc *Fun
 				e.heapTerm(st, name, c.sort)
 				st.heap[name] = e.fresh("modghost", c.sort)
 				e.modified[name] = true
+			}
+		case "heap":
+			for _, n := range e.sortedHeapNames() {
+				if n == t.fam || (strings.HasPrefix(n, t.fam) && strings.ContainsAny(n[len(t.fam):len(t.fam)+1], "#.[@")) {
+					st.heap[n] = e.fresh("modheap", e.heapNames[n])
+					e.modified[n] = true
+				}
 			}
 		case "global":
 			for n, srt := range e.heapNames {
@@ -1294,7 +1348,14 @@ func (e *Eng) allowed(f frame, w writeDesc) (T, bool) {
 			ok = append(ok, tEq(t.ref, w.ref))
 		}
 		switch w.kind {
+		case "heap":
+			if t.kind == "heap" && t.fam == w.fam {
+				return "", true
+			}
 		case "field":
+			if t.kind == "heap" && (w.fam == t.fam || (strings.HasPrefix(w.fam, t.fam) && strings.ContainsAny(w.fam[len(t.fam):len(t.fam)+1], "#.[@"))) {
+				return "", true
+			}
 			if t.kind == "field" && t.ptr.Kind == pField && t.ptr.Fam == w.fam {
 				ok = append(ok, tEq(t.ptr.Ref, w.ref))
 			}
@@ -1437,6 +1498,8 @@ func (e *Eng) callFrameCheck(fr *Frame, st *State, in ssa.Instruction, t *modTar
 		e.checkWrite(fr, st, writeDesc{kind: "ghost0", fam: t.fam}, in, "ghost update by "+callee, "")
 	case "global":
 		e.checkWrite(fr, st, writeDesc{kind: "global", fam: "Glob|x." + t.fam + "|"}, in, "package variable written by "+callee, "")
+	case "heap":
+		e.checkWrite(fr, st, writeDesc{kind: "heap", fam: t.fam}, in, "field of any object written by "+callee, "")
 	}
 }
 
@@ -1985,6 +2048,25 @@ func (e *Eng) localAt(fr *Frame, st *State, at ssa.Instruction, name string) Val
 			}
 		}
 	}
+	// a variable assigned on several paths reaches the call as a phi of that name
+	var bestPhi *ssa.Phi
+	for _, b := range e.fn.Blocks {
+		if !b.Dominates(ab) {
+			continue
+		}
+		for _, in := range b.Instrs {
+			if phi, ok := in.(*ssa.Phi); ok && phi.Comment == name {
+				if bestPhi == nil || bestPhi.Block().Dominates(b) {
+					bestPhi = phi
+				}
+			}
+		}
+	}
+	if bestPhi != nil && (bestBlock == nil || bestBlock.Dominates(bestPhi.Block())) {
+		if v, ok := fr.vals[bestPhi]; ok {
+			return v
+		}
+	}
 	if best != nil {
 		if v, ok := fr.vals[best]; ok {
 			return v
@@ -2011,4 +2093,128 @@ func calleeMatches(full, short string) bool {
 		}
 	}
 	return false
+}
+
+
+// ufResult: result i of a deterministic function as an uninterpreted function of the argument components.
+func (e *Eng) ufResult(key string, i int, rt types.Type, args []Val, sig *types.Signature) Val {
+	v := e.ufApply(key, i, rt, args, sig)
+	// The result depends on the contents of string arguments, not on where they are stored: an argument
+	// whose bytes equal a literal that the same function is applied to elsewhere (in a fact, a contract
+	// clause or the code) gives the same result as that literal.
+	params := sig.Params()
+	off := 0
+	if sig.Recv() != nil && len(args) == params.Len()+1 {
+		off = 1
+	}
+	if e.detLits == nil {
+		e.detLits = map[string]map[int]map[string]bool{}
+	}
+	for j := 0; j < params.Len() && j+off < len(args); j++ {
+		sv, ok := args[j+off].(*StrV)
+		if !ok {
+			continue
+		}
+		if sv.Lit != nil {
+			if e.detLits[key] == nil {
+				e.detLits[key] = map[int]map[string]bool{}
+			}
+			if e.detLits[key][j] == nil {
+				e.detLits[key][j] = map[string]bool{}
+			}
+			e.detLits[key][j][*sv.Lit] = true
+			continue
+		}
+		if e.collect || strings.Contains(sv.B+sv.O+sv.L, "!q") {
+			continue
+		}
+		var lits []string
+		for l := range e.detLits[key][j] {
+			lits = append(lits, l)
+		}
+		sort.Strings(lits)
+		for _, l := range lits {
+			if len(l) > 64 {
+				continue
+			}
+			args2 := append([]Val{}, args...)
+			args2[j+off] = e.strLit(l)
+			v2 := e.ufApply(key, i, rt, args2, sig)
+			f1, f2 := flat(rt, v), flat(rt, v2)
+			var eqs []T
+			for k := range f1 {
+				eqs = append(eqs, tEq(f1[k], f2[k]))
+			}
+			ax := tImp(e.strEq(e.strLit(l), sv), tAnd(eqs...))
+			if e.detAx == nil {
+				e.detAx = map[string]bool{}
+			}
+			if !e.detAx[ax] {
+				e.detAx[ax] = true
+				e.q.Assert(ax)
+			}
+		}
+	}
+	return v
+}
+
+func (e *Eng) ufApply(key string, i int, rt types.Type, args []Val, sig *types.Signature) Val {
+	var argTerms []T
+	var argSorts []string
+	params := sig.Params()
+	off := 0
+	if sig.Recv() != nil && len(args) == params.Len()+1 {
+		off = 1
+		for _, t := range flat(sig.Recv().Type(), args[0]) {
+			argTerms = append(argTerms, t)
+		}
+		for _, c := range comps(sig.Recv().Type()) {
+			argSorts = append(argSorts, c.sort)
+		}
+	}
+	for j := 0; j < params.Len() && j+off < len(args); j++ {
+		pt := params.At(j).Type()
+		argTerms = append(argTerms, flat(pt, args[j+off])...)
+		for _, c := range comps(pt) {
+			argSorts = append(argSorts, c.sort)
+		}
+	}
+	cs := comps(rt)
+	ts := make([]T, len(cs))
+	for k, c := range cs {
+		f := e.q.DeclareFun(fmt.Sprintf("uf|%s|%d%s", key, i, c.suffix), argSorts, c.sort)
+		if len(argTerms) == 0 {
+			ts[k] = f
+		} else {
+			ts[k] = app(f, argTerms...)
+		}
+	}
+	v, _ := unflat(rt, ts)
+	return v
+}
+
+
+// immutableHeap: the field heap belongs to a field declared `immutable` in its package's contract file
+// (obligation immutable:<Type.field>, a module-wide scan: the field is stored only into objects the
+// storing function has just allocated, and its address is never taken for anything but a load).  No call
+// can change such a field of an object that existed before the call.
+func (w *World) immutableHeap(heapName string) bool {
+	if !strings.HasPrefix(heapName, "F|") {
+		return false
+	}
+	w.immutOnce.Do(func() {
+		w.immut = map[string]bool{}
+		for path, cf := range w.FileOfPkg {
+			for _, c := range cf.Immutables {
+				w.immut["F|"+path+"."+c.Expr[:strings.Index(c.Expr, ".")]+"|"+c.Expr[strings.Index(c.Expr, ".")+1:]] = true
+			}
+		}
+	})
+	i := strings.LastIndex(heapName, "|")
+	base := heapName
+	// component suffixes follow the field name and start with one of # . [ @
+	if j := strings.IndexAny(heapName[i+1:], "#.[@"); j >= 0 {
+		base = heapName[:i+1+j]
+	}
+	return w.immut[base]
 }
